@@ -206,6 +206,43 @@ def mirror(chk, F):
                   "type parameters swapped, is the same set of clauses (conditions and results compared modulo "
                   "operand order of &&, ||, == and of calls to relations proved symmetric)")
     symmetric = {q for q, _ in MIRROR_FUNCS} | {q.split("::")[-1] for q, _ in MIRROR_FUNCS}
+    # helpers of two parameters that the relations call (e.g. an extracted `haveEqualBounds(t1, t2)`): a helper
+    # whose own clause list is closed under swapping its parameters is a symmetric relation, so the order of its
+    # arguments does not matter in the caller
+    todo = [F.fn(q, n) for q, n in MIRROR_FUNCS]
+    seen_h = set()
+    helpers = []
+    while todo:
+        f = todo.pop()
+        for c in walk(f["body"]):
+            if c.get("k") != "call" or len(c.get("args", [])) != 2 or c.get("recv") is not None:
+                continue
+            hq = c.get("fn") or c.get("name")
+            if hq in symmetric or hq in seen_h:
+                continue
+            seen_h.add(hq)
+            for h in F.fns(hq):
+                if len(h["params"]) == 2 and h.get("body") is not None and (h.get("file") or "").startswith(
+                        (F.fn(MIRROR_FUNCS[0][0], 2).get("file") or "")[:5]):
+                    helpers.append(h)
+                    todo.append(h)
+    changed = True
+    while changed:
+        changed = False
+        for h in helpers:
+            hq = h["q"]
+            if hq in symmetric:
+                continue
+            a, b = h["params"][0]["name"], h["params"][1]["name"]
+            sw = {a: b, b: a}
+            sw.update(local_pairs(h, a, b))
+            cl = clauses(h["body"])
+            o = {json.dumps([canon(c, {}, hq, symmetric), canon(st, {}, hq, symmetric)]) for c, st in cl}
+            w = {json.dumps([canon(c, sw, hq, symmetric), canon(st, sw, hq, symmetric)]) for c, st in cl}
+            if o == w:
+                symmetric.add(hq)
+                symmetric.add(hq.split("::")[-1])
+                changed = True
     for q, npar in MIRROR_FUNCS:
         fn = F.fn(q, npar)
         p1, p2 = fn["params"][0]["name"], fn["params"][1]["name"]
